@@ -1,5 +1,6 @@
 SPECIFICATION TSpec
 CONSTANTS Sizes = {}
+          Stats = FALSE
 INVARIANTS WindowOK WindowData Refines Terminates
 POSTCONDITION Accepted
 CHECK_DEADLOCK FALSE
